@@ -186,9 +186,21 @@ class LazyModel(histmc.HistModel):
                 else:
                     kind = "val:" + norm(v)[:120]
                 put(cls.__name__, name, kind)
+        def _shape_of(v):
+            if isinstance(v, (dict, list, set, tuple, frozenset)):
+                return "%s/%d" % (type(v).__name__, len(v))
+            if isinstance(v, (core.Element, core.Isotope, core.Ion)):
+                return "atom"
+            return type(v).__name__
+        # state hung on the table class or on a table object (memo dictionaries, registries): names and sizes
+        for name in sorted(core.PeriodicTable.__dict__):
+            v = core.PeriodicTable.__dict__[name]
+            if not name.startswith("__") and not callable(v) and not isinstance(v, (property, staticmethod, classmethod)):
+                put("PeriodicTable", name, _shape_of(v))
         for tname in sorted(core.PRIVATE_TABLES):
             T = core.PRIVATE_TABLES[tname]
             put("table", tname, sorted(T.properties))     # membership is what the loaders test, never the order
+            put("table-dict", tname, sorted((k, _shape_of(v)) for k, v in T.__dict__.items() if k != "properties"))
             shapes = []
             for el in T:
                 shapes.append(frozenset(k for k in el.__dict__ if k != "_xray"))
